@@ -36,12 +36,25 @@ def roundedOpt (o : Optimizer P) : Optimizer P :=
 
 def parseOptR (v : Val) : Option (Optimizer P) := (parseOpt v).map roundedOpt
 
-def gradTab (keyed : Bool) (tab : Tab) (w : P) (b : Batch) (k : Key) : P :=
-  if keyed then
+/-- the loss of a probe: key-dependent term on/off and the weight `lam` of an optional L2
+regulariser `lam/2·‖w‖²` (gradient `lam·w`, added once per call as `models.grad` does).
+Protocol: `keyed` or `[keyed, lam]`. -/
+structure LossSpec where
+  keyed : Bool
+  lam : Rat
+
+def parseLoss (v : Val) : Option LossSpec :=
+  match v with
+  | .list [k, l] => do some ⟨(← k.toBool?), (← l.toRat?)⟩
+  | _ => v.toBool?.map fun k => ⟨k, 0⟩
+
+def gradTab (ls : LossSpec) (tab : Tab) (w : P) (b : Batch) (k : Key) : P :=
+  let reg := vscale ls.lam w
+  if ls.keyed then
     match tab.lookup k with
-    | some nz => (vadd (batchGrad w b) nz).map rnd
+    | some nz => (vadd (vadd (batchGrad w b) nz) reg).map rnd
     | none => poison w
-  else (batchGrad w b).map rnd
+  else (vadd (batchGrad w b) reg).map rnd
 
 def rowLoss (w : P) (row : List Rat) : Rat :=
   let e := dot w row.dropLast - row.getLastD 0
@@ -117,13 +130,13 @@ def renderTable (t : List (Nat × ApflClientState)) : Val :=
 def handle (op : String) (args : List Val) : Option Val :=
   match op, args with
   | "c12.fedavg", [keyed, copt, sopt, params, cohorts] => do
-    let keyed ← keyed.toBool?; let copt ← parseOptR copt; let sopt ← parseOptR sopt
+    let keyed ← parseLoss keyed; let copt ← parseOptR copt; let sopt ← parseOptR sopt
     let params ← params.toRats?
     let cohorts ← Val.mapM? (parseCohort parseClient) cohorts
     let res := history (fun s co => round (gradTab keyed co.2) copt sopt s co.1) ⟨params, sopt.init params⟩ cohorts
     some (.list (res.map renderState))
   | "c12.fedprox", [keyed, mu, copt, sopt, params, cohorts] => do
-    let keyed ← keyed.toBool?; let mu ← mu.toRat?
+    let keyed ← parseLoss keyed; let mu ← mu.toRat?
     let copt ← parseOptR copt; let sopt ← parseOptR sopt
     let params ← params.toRats?
     let cohorts ← Val.mapM? (parseCohort parseClient) cohorts
@@ -131,7 +144,7 @@ def handle (op : String) (args : List Val) : Option Val :=
       ⟨params, sopt.init params⟩ cohorts
     some (.list (res.map renderState))
   | "c12.mimelite", [keyed, clip, base, lr, params, cohorts] => do
-    let keyed ← keyed.toBool?; let clip ← parseOptRat clip
+    let keyed ← parseLoss keyed; let clip ← parseOptRat clip
     let base ← parseOptR base; let lr ← lr.toRat?
     let params ← params.toRats?
     let cohorts ← Val.mapM? (parseCohort parseGClient) cohorts
@@ -141,14 +154,14 @@ def handle (op : String) (args : List Val) : Option Val :=
     | some res => some (.list (res.map renderState))
   | "c12.mimelite_deltas", [keyed, clip, base, params, optState, cohort] => do
     -- the client deltas one MimeLite round aggregates (after the optional clip)
-    let keyed ← keyed.toBool?; let clip ← parseOptRat clip
+    let keyed ← parseLoss keyed; let clip ← parseOptRat clip
     let base ← parseOptR base
     let params ← params.toRats?; let optState ← optState.toRats?
     let co ← parseCohort parseGClient cohort
     let res := mimeLiteResults nrmApprox clip (gradTab keyed co.2) base ⟨params, optState⟩ co.1
     some (.list (res.map fun r => .list [Val.ofNat r.1, Val.ofRats r.2]))
   | "c12.mime", [keyed, base, lr, params, cohorts] => do
-    let keyed ← keyed.toBool?
+    let keyed ← parseLoss keyed
     let base ← parseOptR base; let lr ← lr.toRat?
     let params ← params.toRats?
     let cohorts ← Val.mapM? (parseCohort parseGClient) cohorts
@@ -157,7 +170,7 @@ def handle (op : String) (args : List Val) : Option Val :=
     | none => some (.sym "err")
     | some res => some (.list (res.map renderState))
   | "c12.hyp", [keyed, copt, sopt, clusters, cohorts] => do
-    let keyed ← keyed.toBool?; let copt ← parseOptR copt; let sopt ← parseOptR sopt
+    let keyed ← parseLoss keyed; let copt ← parseOptR copt; let sopt ← parseOptR sopt
     let clusters ← clusters.toRatss?
     let cohorts ← Val.mapM? (parseCohort parseHClient) cohorts
     let s0 : List (ServerState P) := clusters.map fun p => ⟨p, sopt.init p⟩
@@ -168,7 +181,7 @@ def handle (op : String) (args : List Val) : Option Val :=
          co.1.map fun c => hypAssign avgLoss splitN (s.map (·.params)) c)) (s0, []) cohorts
     some (.list (res.map fun r => .list [.list (r.1.map renderState), Val.ofNats r.2]))
   | "c12.apfl", [keyed, copt, sopt, coef0, seg, params, cohorts] => do
-    let keyed ← keyed.toBool?; let copt ← parseOptR copt; let sopt ← parseOptR sopt
+    let keyed ← parseLoss keyed; let copt ← parseOptR copt; let sopt ← parseOptR sopt
     let coef0 ← coef0.toRat?; let seg ← seg.toNats?
     let params ← params.toRats?
     let cohorts ← Val.mapM? (parseCohort parseClient) cohorts
